@@ -212,6 +212,54 @@ def check_reject(c):
     return discs
 
 
+def check_longlived(nreq):
+    """one SLCDriver object for thousands of requests (every transaction id / sequence value is used): write, read back, compare with the table"""
+    from pycomm3 import SLCDriver
+    from pycomm3.exceptions import PycommError
+    tables = {(0x89, 7): table_for(0x89, b"\x11\x22\x33"), (0x85, 3): table_for(0x85, b"\x0f\xf0\x55"), (0x8A, 8): table_for(0x8A, b"\x01\x02\x03\x04\x05")}
+    tgt = RefSLC(tables, {"fo_policy": "std", "expected_route": b"\x01\x00"})
+    harness.install(tgt, budget=3 * nreq + 1000)
+    try:
+        plc = SLCDriver("10.0.0.7")
+        plc.open()
+        for i in range(nreq // 2):
+            e = i % 200
+            kind = i % 4
+            try:
+                if kind == 0:
+                    v = (i * 37) % 65536 - 32768
+                    w = plc.write((f"N7:{e}", v))
+                    r = plc.read(f"N7:{e}")
+                    want = struct.unpack_from("<h", tgt.tables[(0x89, 7)], 2 * e)[0]
+                    ok = bool(w) and bool(r) and r.value == v == want
+                elif kind == 1:
+                    b = i % 16
+                    v = bool(i & 8)
+                    before = struct.unpack_from("<H", tgt.tables[(0x85, 3)], 2 * e)[0]
+                    w = plc.write((f"B3:{e}/{b}", v))
+                    r = plc.read(f"B3:{e}/{b}")
+                    after = struct.unpack_from("<H", tgt.tables[(0x85, 3)], 2 * e)[0]
+                    ok = bool(w) and bool(r) and r.value is v and after == ((before | (1 << b)) if v else (before & ~(1 << b) & 0xFFFF))
+                elif kind == 2:
+                    r = plc.read(f"N7:{e}{{3}}") if e < 198 else plc.read(f"N7:{e}")
+                    want = [struct.unpack_from("<h", tgt.tables[(0x89, 7)], 2 * (e + k))[0] for k in range(3)] if e < 198 else struct.unpack_from("<h", tgt.tables[(0x89, 7)], 2 * e)[0]
+                    w = True
+                    ok = bool(r) and r.value == want
+                else:
+                    v = float(i % 1000) / 8
+                    w = plc.write((f"F8:{e}", v))
+                    r = plc.read(f"F8:{e}")
+                    ok = bool(w) and bool(r) and r.value == v
+            except PycommError as ex:
+                return [Disc(f"longlived.raises.{type(ex).__name__}", f"request #{2 * i + 1} on one driver object: {ex!r}")]
+            if not ok:
+                return [Disc("longlived.value", f"request #{2 * i + 1}/{2 * i + 2} on one driver object (kind {kind}, element {e}): write {w!r}, read {r!r}"[:400])]
+        plc.close()
+        return []
+    finally:
+        harness.uninstall()
+
+
 def kind_of(a):
     if a.get("bform") is not None:
         return "bfile"
@@ -318,6 +366,7 @@ def plan(tier):
         jobs.append({"part": "bfile", "lo": i, "step": k, "files": [3] if tier == "quick" else [1, 3, 10, 255]})
     for i in range(8):
         jobs.append({"part": "elembit", "lo": i, "step": 8, "stride": 8 if tier == "quick" else 1})
+    jobs.append({"part": "longlived", "requests": 6000 if tier == "quick" else 70000})
     n = 8 if tier == "quick" else 32
     for _ in range(n):
         jobs.append({"part": "ops", "examples": 400 if tier == "quick" else 5000})
@@ -348,6 +397,10 @@ def run_job(ctx, job):
                     for d in discs:
                         ctx.violation(d, "op", c)
         ctx.exhaustive_parts.append("(element, bit) pairs of an integer file")
+    elif part == "longlived":
+        for d in check_longlived(job["requests"]):
+            ctx.violation(d, "longlived", {"requests": job["requests"]})
+        ctx.bulk(job["requests"], [hash(("ll", job["requests"])) & 0xFFFFFFFF, 2], {"long-lived-requests": job["requests"], "write": job["requests"] // 2})
     elif part == "ops":
         hyp_search(ctx, "op", ops(), lambda c: (check_op(c), len(classes(c)) > 1, classes(c)), job["examples"],
                    sample_of=lambda c: {"op": c["op"], "address": render(c["addr"]), "value": c.get("value")})
@@ -356,4 +409,6 @@ def run_job(ctx, job):
 
 
 def replay(ctx, kind, case):
+    if kind == "longlived":
+        return check_longlived(case["requests"])
     return check_reject(case) if kind == "reject" else check_op(case)
